@@ -101,9 +101,12 @@ class Prop(SeqProp):
         if self.scratch is None:
             self.scratch = core.scratch_dir()
         path = os.path.join(self.scratch, "forkfile.txt")
-        lines = [f"L{i}" for i in range(NLINES)]
-        with open(path, "w") as fh:
-            fh.write("".join(l + "\n" for l in lines))
+        # carriage returns (CRLF-style endings and a lone one inside a line) and multi-byte characters are ordinary content
+        # (MapAccessFile reads through universal newlines in a single process too: its file has no carriage returns)
+        sfx = ["", " \u00e9", "", " \u00e9\u6f22"] if case.meta["variant"] == "MapAccessFile" else ["", "\r", "\rx", " \u00e9\u6f22"]
+        lines = [f"L{i}" + sfx[i % 4] for i in range(NLINES)]
+        with open(path, "wb") as fh:
+            fh.write("".join(l + "\n" for l in lines).encode("utf-8"))
         tree = ForkTree(case.meta["variant"], path, lines)
         iter_ops = set(case.meta.get("iter_ops", []))
         out = []
@@ -137,8 +140,8 @@ class Prop(SeqProp):
                         else:
                             r = tree.next(k)
                         if r[0] == "ret":
-                            text = r[1].rstrip("\n")
-                            out.append("ret " + (text[1:] if text.startswith("L") and text[1:].isdigit() else "?" + repr(r[1])))
+                            text = r[1][:-1] if r[1].endswith("\n") else r[1]
+                            out.append("ret " + (str(lines.index(text)) if text in lines else "?" + repr(r[1])))
                         else:
                             out.append(f"err {r}")
                     else:
